@@ -173,8 +173,8 @@ NOT_APPLICABLE = {}
 
 # decidable per-operation forms of the properties (coq/Model/Monitors.v), evaluated on the implementation's observed
 # snapshots: they turn a broken correspondence into a concrete failing history
-for _k, _m in {"C02": "mon_C02", "C09": "mon_C09", "C12": "mon_C12", "C13": "mon_C13", "C03": "mon_C03", "C04": "mon_C04", "C06": "mon_C06", "C08": "mon_C08", "C11": "mon_C11",
-               "C14": "mon_C14", "C15": "mon_C15", "C16": "mon_C16", "C17": "mon_C17", "C20": "mon_C20"}.items():
+for _k, _m in {"C02": "mon_C02", "C09": "mon_C09", "C12": "mon_C12", "C13": "mon_C13", "C03": "mon_C03", "C04": "mon_C04", "C06": "mon_C06", "C08": "mon_C08r", "C11": "mon_C11",
+               "C14": "mon_C14s", "C15": "mon_C15r", "C16": "mon_C16c", "C17": "mon_C17", "C20": "mon_C20"}.items():
     PROPS[_k]["monitor"] = _m
 
 # additions to the claim texts: whole-transaction theorems (coq/Proofs/TxBalances.v) and monitors
